@@ -169,6 +169,36 @@ func (r *rt) step(m *model, o Op, gen int8, prev []ent, prevValid, priorErr bool
 	if !same {
 		res.Kind = "callbacks that fire when the pipeline executes differ from the compiled list"
 		res.Detail = fmt.Sprintf("fired %s, compiled (stubs only) %s", p.orderString(fired), p.orderString(want))
+		return
+	}
+	// registration issued from inside a running callback of the same pipeline:
+	// the run in progress still fires every callback of its list exactly once
+	ks := []int{0, len(fired) / 2, len(fired) - 1}
+	for j, k := range ks {
+		if k < 0 || k >= len(fired) || (j > 0 && k == ks[j-1]) {
+			continue
+		}
+		for _, remove := range []bool{false, true} {
+			again, pan := r.runReentrant(k, remove)
+			ctr.ReentrantRuns++
+			what := "Before(\"*\").Register of a new callback"
+			if remove {
+				what = "Remove of the firing callback"
+			}
+			if pan != "" {
+				res.Kind, res.Detail = "panic while executing the pipeline", fmt.Sprintf("%s issued from inside firing #%d: %s", what, k, pan)
+				return
+			}
+			eq := len(again) == len(fired)
+			for i := 0; eq && i < len(fired); i++ {
+				eq = again[i] == fired[i]
+			}
+			if !eq {
+				res.Kind = "a registration call issued from inside a running callback changes what the run in progress fires"
+				res.Detail = fmt.Sprintf("%s issued from inside firing #%d: the run fired %s, a plain run fires %s", what, k, p.orderString(again), p.orderString(fired))
+				return
+			}
+		}
 	}
 	return
 }
